@@ -195,6 +195,8 @@ pub fn with_attrs(mut cfg: Cfg, ask: &[&str], bid: &[&str]) -> Cfg {
     }
     t.insert("someattr".into(), vec!["kyc".into()]);
     t.insert("noattr".into(), vec![]);
+    // the same attribute name recorded twice (different values on chain), another one missing
+    t.insert("dupattr".into(), vec!["kyc".into(), "kyc".into()]);
     cfg.chain.attrs = Arc::new(t);
     cfg
 }
@@ -228,8 +230,24 @@ pub fn with_legacy_seed(mut s: Scenario) -> Scenario {
     s.l.push(Act::new(&buyer, vec![], Req::CancelBid { id: bid.clone() }));
     s.l.push(Act::new(&exec, vec![], Req::ExpireBid { id: bid.clone() }));
     s.l.push(Act::new(&exec, vec![], Req::RejectBid { id: bid.clone(), size: Some(inc) }));
+    legacy_spelling_matches(&mut s);
     s.name = format!("{}+legacy", s.name);
     s
+}
+
+/// match requests that name the canonical spelling of the legacy orders' ids (no such order is on the book)
+fn legacy_spelling_matches(s: &mut Scenario) {
+    let exec = s.cfg.roles.get("exec").to_string();
+    let inc = s.cfg.increment;
+    for pr in s.menu.prices.clone() {
+        for b in 0..s.menu.bid_slots.max(1) {
+            s.l.push(Act::new(&exec, vec![], Req::Match { ask_id: ID_A2.into(), bid_id: BID_IDS[b].into(), price: pr.to_string(), size: inc }));
+        }
+        for a in 0..s.menu.ask_slots.max(1) {
+            s.l.push(Act::new(&exec, vec![], Req::Match { ask_id: ASK_IDS[a].into(), bid_id: ID_B2.into(), price: pr.to_string(), size: inc }));
+        }
+        s.l.push(Act::new(&exec, vec![], Req::Match { ask_id: ID_A2.into(), bid_id: ID_B2.into(), price: pr.to_string(), size: inc }));
+    }
 }
 
 /// S2: a book carried over from contract version `version`: a legacy-id ask, an old-format
@@ -280,6 +298,7 @@ pub fn with_old_format_seed(mut s: Scenario, version: &str) -> Scenario {
             }
         }
     }
+    legacy_spelling_matches(&mut s);
     s.pre_migrate = Some((version.to_string(), json!({})));
     s.name = format!("{}+carried-over-from-{version}", s.name);
     s
@@ -377,7 +396,7 @@ pub fn plan(prop: &str, tier: Tier) -> Plan {
     let th = tier == Tier::Thorough;
     match prop {
         "C01" | "C02" | "C17" | "C11" => {
-            let mut s = ledger_scenarios(tier, &no_probes);
+            let mut s = if prop == "C17" { ledger_scenarios(tier, &|c, m| probes::reversals(c, m)) } else { ledger_scenarios(tier, &no_probes) };
             if prop == "C11" && th {
                 s.push(scen("B22/P1/F1/R4", Cfg::new(0, 2, ("0.25", "0.25"), "R4"), menu_p1(2, 2), vec![]));
             }
@@ -526,6 +545,7 @@ pub fn plan(prop: &str, tier: Tier) -> Plan {
             mk("B11/multi-denom", multi(Cfg::new(0, 2, ("0.25", "0.25"), "R0")), small(menu_multi(1, 1)), &mut v);
             mk("B11/P1/F1/attrs-ask-only", with_attrs(Cfg::new(0, 2, ("0.25", "0.25"), "R0"), &["kyc"], &[]), small(menu_p1(1, 1)), &mut v);
             mk("B11/P1/F1/attrs-bid-only", with_attrs(Cfg::new(0, 2, ("0.25", "0.25"), "R0"), &[], &["kyc"]), small(menu_p1(1, 1)), &mut v);
+            mk("B11/P1/F1/attrs-listed-twice", with_attrs(Cfg::new(0, 2, ("0.25", "0.25"), "R0"), &["kyc", "kyc"], &["acc", "acc"]), small(menu_p1(1, 1)), &mut v);
             mk("B11/P1/F1/attrs2", with_attrs(Cfg::new(0, 2, ("0.25", "0.25"), "R0"), &["kyc", "acc"], &["acc", "kyc"]), small(menu_p1(1, 1)), &mut v);
             if th {
                 mk("B12/P1/F1", Cfg::new(0, 2, ("0.25", "0.25"), "R0"), small(menu_p1(1, 2)), &mut v);
@@ -660,6 +680,8 @@ pub fn plan(prop: &str, tier: Tier) -> Plan {
             v.push(scen("B12/P1/F1/R0", Cfg::new(0, 2, ("0.25", "0.25"), "R0"), menu_p1(1, 2), vec![]));
             v.push(with_legacy_seed(scen("B11/P1/F1/R0", Cfg::new(0, 2, ("0.25", "0.25"), "R0"), menu_p1(1, 1), vec![])));
             v.extend(upgrade_family(&no_probes, false));
+            // fee rates stored in a spelling that is not the shortest one
+            v.push(scen("B11/P1/rates-0.250-0.2500", Cfg::new(0, 2, ("0.250", "0.2500"), "R0"), Menu { prices: vec!["2"], ..menu_p1(1, 1) }, vec![]));
             if th {
                 v.push(scen("B22/P1/F1/R0", Cfg::new(0, 2, ("0.25", "0.25"), "R0"), menu_p1(2, 2), vec![]));
                 v.push(with_legacy_seed(scen("B12/P2/F1/R0", Cfg::new(1, 10, ("0.25", "0.25"), "R0"), menu_p2(1, 2), vec![])));
